@@ -36,8 +36,13 @@ FORBIDDEN = re.compile(r"\b(Admitted|admit|Axiom|Axioms|Parameter|Parameters|Con
                        r"native_compute)\b")
 
 
+TIER = "quick"
+
+
 class Ctx:
     def __init__(self, prop, tier, seed):
+        global TIER
+        TIER = tier
         self.prop = prop
         self.tier = tier
         self.seed = seed
@@ -169,14 +174,26 @@ class BuildLock:
 
 
 def sh(cmd, timeout=600, cwd=None, env=None, input=None):
+    """run a command; on timeout kill its whole process group (a per-case child that is deadlocked keeps the output
+    pipes open, so killing only the parent would block the collection of what was printed so far)"""
     e = dict(os.environ)
     if env:
         e.update(env)
+    p = subprocess.Popen(cmd, cwd=cwd, env=e, stdin=subprocess.PIPE if input is not None else None,
+                         stdout=subprocess.PIPE, stderr=subprocess.PIPE, text=True, start_new_session=True)
     try:
-        r = subprocess.run(cmd, cwd=cwd, env=e, input=input, capture_output=True, text=True, timeout=timeout)
-        return r.returncode, r.stdout, r.stderr
-    except subprocess.TimeoutExpired as ex:
-        return 124, (ex.stdout or b"").decode(errors="replace") if isinstance(ex.stdout, bytes) else (ex.stdout or ""), "timeout"
+        out, err = p.communicate(input=input, timeout=timeout)
+        return p.returncode, out, err
+    except subprocess.TimeoutExpired:
+        try:
+            os.killpg(p.pid, 9)
+        except OSError:
+            pass
+        try:
+            out, err = p.communicate(timeout=10)
+        except Exception:
+            out, err = "", ""
+        return 124, out or "", (err or "") + "\ntimeout"
 
 
 # ---------------------------------------------------------------------------
@@ -352,8 +369,14 @@ def run_lines(exe_argv, lines, timeout=600, env=None):
     e = {"ASAN_OPTIONS": "detect_leaks=1:abort_on_error=0:exitcode=99", "UBSAN_OPTIONS": "print_stacktrace=1"}
     if env:
         e.update(env)
+    if TIER == "quick":
+        timeout = min(timeout, 150)    # a quick tier feeds seconds of work; a harness that is still busy is stuck
     rc, out, err = sh(exe_argv, input="\n".join(lines) + "\n", timeout=timeout, env=e)
-    return rc, out.splitlines(), err
+    ol = out.splitlines()
+    if rc == 124:
+        err += "\nHANG: %s did not finish within %d s; %d of %d cases answered; first unanswered: %s" % (
+            os.path.basename(exe_argv[0]), timeout, len(ol), len(lines), lines[len(ol)][:300] if len(ol) < len(lines) else "-")
+    return rc, ol, err
 
 
 def coq_eval_sample(ctx, requires, exprs, timeout=300):
@@ -400,6 +423,10 @@ def main_entry(run_fn, prop):
     try:
         run_fn(ctx)
     except Exception as e:  # infrastructure failure: never silently pass
+        if type(e).__name__ == "DaemonUnresponsive":
+            ctx.violation("munged stops serving: %s (each waited 5 s; history of the last requests in the replay file)" % e,
+                          {"obligation": "liveness of the daemon under the check's request stream", "history": e.history})
+            sys.exit(ctx.finish())
         import traceback
         tb = traceback.format_exc()
         ctx.violation("check infrastructure failed: %r" % e, {"traceback": tb, "obligation": "infrastructure"},
